@@ -57,6 +57,7 @@ func main() {
 	commands["configs"] = cmdConfigs
 	commands["battles-replay"] = cmdBattlesReplay
 	commands["steps-replay"] = cmdStepsReplay
+	commands["suite-convert"] = cmdSuiteConvert
 	if len(os.Args) < 2 {
 		fatal("usage: vharness <command> [flags]")
 	}
